@@ -338,7 +338,7 @@ class Layouts:
                     x = self.eval(a[0], shapes, args, tail_len)
                     if isinstance(x, int):
                         return x if 0 <= x < (1 << w) else ("ERR",)
-            if name in ("eq", "ne") and len(a) == 2 and (path.endswith(("core::cmp::PartialEq>::eq", "core::cmp::PartialEq>::ne")) or path in ("core::cmp::PartialEq::eq", "core::cmp::PartialEq::ne")):
+            if name in ("eq", "ne") and len(a) == 2 and "core::cmp::PartialEq" in path:
                 x = self.eval(a[0], shapes, args, tail_len)
                 y = self.eval(a[1], shapes, args, tail_len)
                 return int((x == y) == (name == "eq"))
